@@ -747,6 +747,19 @@ func genSecSpec(g *Gen, w *bufio.Writer) {
 			fmt.Fprintf(w, "snasenc %d %s %d %d %d %s\n", alg, key(), uint32(g.U64()), g.Intn(32), g.Intn(2), hexs(data))
 		}
 	}
+	// the standard functions are defined on the first LENGTH bits only: octets behind ceil(LENGTH/8) and, for the functions
+	// that read bit by bit (NEA1, NEA3, NIA3), the slack bits of the last octet do not matter. (NIA1 in this library hashes whole
+	// octets; callers pad with zero bits, as the API path does - see DESIGN, C07.)
+	for _, alg := range []int{1, 3} {
+		for bits := 1; bits <= 70; bits++ {
+			nb := (bits + 7) / 8
+			d := g.Bytes(nb + []int{0, 1, 2, 3, 4, 5, 8, 12}[g.Intn(8)])
+			fmt.Fprintf(w, "snea %d %s %d %d %d %s %d\n", alg, key(), uint32(g.U64()), g.Intn(32), g.Intn(2), hexs(d), bits)
+			if alg == 3 {
+				fmt.Fprintf(w, "snia 3 %s %d %d %d %s %d\n", key(), uint32(g.U64()), g.Intn(32), g.Intn(2), hexs(g.Bytes(nb)), bits)
+			}
+		}
+	}
 	// the algorithms interleaved in one process (a call must not see anything an earlier call with another algorithm, key,
 	// COUNT, bearer or direction left behind): every ordered pair of algorithms back to back, then a random walk
 	for a := 1; a <= 3; a++ {
